@@ -237,14 +237,14 @@ impl DegreeMeta for Expression {
                         result = result || index.propagate_degrees(env);
                     }
                 }
-                if env.degree(var).is_none() {
+                if !env.is_assigned(var) {
                     // This is the first assignment to the array. The degree is given by the RHS.
                     if let Some(range) = rhe.degree() {
                         result = result || meta.degree_knowledge_mut().set_degree(range);
                     }
                 } else {
                     // The array has been assigned to previously. The degree is the infimum of
-                    // the degrees of `var` and the RHS.
+                    // the degrees of `var` and the RHS (and unknown if either is unknown).
                     let range = DegreeRange::iter_opt([env.degree(var), rhe.degree()]);
                     if let Some(range) = range {
                         result = result || meta.degree_knowledge_mut().set_degree(&range);
